@@ -803,6 +803,29 @@ func TestVerif_C07_DocLedger(t *testing.T) {
 			if !emitStored(curDoc) {
 				tw.Emit(vObj{"a": "Failed", "k": "doc", "id": curDoc, "err": fmt.Sprint(werr)})
 			}
+		case "resync":
+			// the resync write with regenerate_sequences (ResyncDocument -> getResyncedDocument -> assignSequence): a
+			// document write like any other - it draws a number per attempt; "Env" steps are writers that commit inside
+			// the window between its callback and its CAS write (CAS retry)
+			curDoc = fmt.Sprintf("c07r%d_%d", vSeed(), i)
+			envs, envIdx = nil, 0
+			for _, st := range sc.Steps {
+				if st.A == "Env" {
+					envs = append(envs, st.K)
+				}
+			}
+			busy = true
+			rev1, _, err = collection.Put(cctx, curDoc, Body{"v": 0})
+			if err != nil {
+				t.Fatalf("VERIF-FATAL C07 cannot create %s: %v", curDoc, err)
+			}
+			emitStored(curDoc)
+			busy = false
+			rerr := collection.ResyncDocument(cctx, curDoc, nil, true)
+			busy = true
+			if rerr != nil || !emitStored(curDoc) {
+				tw.Emit(vObj{"a": "Failed", "k": "doc", "id": curDoc, "err": fmt.Sprint(rerr)})
+			}
 		case "princ":
 			name := fmt.Sprintf("c07u%d_%d", vSeed(), i)
 			princKey = keys.UserKey(name)
